@@ -234,3 +234,80 @@ def oracle_cow(run):
         if any(snaps.values()) or handle:
             return "run ended with handles alive"
     return None
+
+
+COW_TRUST = ["Model/Cow.lean is a hand-written model of cow_guarded.hpp (lock(), the handle's deleter = release, cancel(), handle "
+             "move, lock_shared and its three try forms) whose state EMBEDS the left-right model's state: every primitive "
+             "operation on m_data (two flags, two counters, inner write mutex, the assignments to the two shared_ptr copies) is "
+             "delegated to LR.step — the function the C03 theorems are about — so lr_guarded's guarantees are used as lemmas, "
+             "not re-assumed; readers are modelled exactly (C14 counts their 7 steps), the publication inherits the LR writer's "
+             "stage-B discipline, cancel() accepts unlock and destruction in either order",
+             "shared_ptr reference counts live inside libstdc++ and are not traced: the model keeps a ghost reference ledger (one "
+             "entry per snapshot handle + the two sides) and checks it against the only observable consequences — which payload "
+             "object is destroyed, by whom and when (harness/vpayload_cow.hpp: traced multi-word payload with a version id, "
+             "liveness registry, quarantined memory); the moment at which the side being assigned gives up its old reference "
+             "lies between two traced plain stores, so inside that window either the writer or a concurrently dropping reader may "
+             "be the destroyer (the model requires that exactly one of them is, before the window closes)",
+             "plain-access tap on m_data.m_left / m_right (tap_opts: pointer values printed as version names, every tapped access "
+             "a scheduling point); Driver/Cow.lean maps `pld/pst left|right` to pointer-word events and `+8` to control-word "
+             "events, parses m_data's atomics through the LR driver (seq_cst only), ignores the constructor's `pct v0 0` and the "
+             "destruction of the wrapper after `fin`"]
+COW_ASSUME = ["seq_cst atomics and std::mutex are interleaved cells (the C++-memory-model half of the quantifier is C07's)",
+              "client obligations: a thread does not call lock() while it owns a write handle (it would wait for itself); handles "
+              "and snapshots stay in their thread; the wrapper is destroyed after all handles and snapshots",
+              "std::shared_ptr's control block is correct (atomic counts, object destroyed by the thread that drops the last "
+              "reference); T's destructor does not throw"]
+COW_TIE = (" Tied to the source on every run: the unmodified header, instantiated with a traced multi-word payload, runs under a "
+           "deterministic scheduler (readers parked inside lock_shared so that both wait loops of the publication iterate, stale "
+           "readers, snapshots kept across commits and dropped inside the publication's assignment window, cancel and a throwing "
+           "copy constructor under contention); every primitive-level trace must be accepted by the model's step function — "
+           "including version ids, values and the thread that destroys each version — with all 95 model edges of today's code "
+           "covered, and every line / member function of cow_guarded.hpp executed.")
+TRY_LOCK_NOTE = ("cow_guarded::try_lock / try_lock_for / try_lock_until cannot be instantiated (compile error: `return handle();` "
+                 "needs a default-constructible deleter, g++ 12 and clang 14) — they are dead code today; textually they are lock() "
+                 "(they BLOCK on the writer mutex: `unique_lock<M> guard(m_writeMutex)` without try_to_lock) plus an unreachable "
+                 "null check, so the model's lock() covers what they would do")
+
+
+def register(PROPS, COMPONENTS):
+    base = dict(client="cow", tap=True, directed_runs=12, quick_runs=1500, thorough_runs=40000, oracle=oracle_cow,
+                cov_headers=["gmlc/libguarded/cow_guarded.hpp"],
+                # cannot be instantiated at all (see TRY_LOCK_NOTE); handle's constructors are inherited from unique_ptr
+                inst_allow=[r"cow_guarded::try_lock$", r"cow_guarded::try_lock_for$", r"cow_guarded::try_lock_until$"])
+    COMPONENTS["cow"] = dict(base, driver="cow")
+    COMPONENTS["cow_strict"] = dict(base, driver="cow_strict")
+    PROPS["C04"] = dict(
+        lean_files=["ConcVerif/Props/C04.lean"], components=["cow"], stage="B",
+        level_text="Lean 4 theorems (kernel-checked; unbounded threads, handles, snapshots and interleavings, throwing copy "
+                   "constructor included) over an executable model of cow_guarded.hpp that embeds the left-right model and "
+                   "delegates every primitive operation on m_data to it: every payload write goes to a private version that is "
+                   "on no side, in no snapshot and not committed, and no step changes the value of a published version; a "
+                   "snapshot handle keeps naming the same live version with the same value from its creation to its drop, "
+                   "whatever happens in between (trace form); a version is destroyed only when no snapshot handle, no attached "
+                   "side, no copy in progress and no other write handle refers to it, never twice, and a thread that drops the "
+                   "last reference cannot continue without destroying; the writer mutex is owned exactly from lock() to release / "
+                   "cancel / unwinding, by one thread, and m_data.modify runs only inside it; lock() copies the latest committed "
+                   "version and it still is the latest when the handle commits; each committed version's parent is the previous "
+                   "one, committed = released (+ the one pending) in unlock order — no lost update; a copy made by a lock_shared "
+                   "called after a release returned yields that version or a later one (from C03's real-time theorem); cancel "
+                   "unlocks once, destroys the private copy once, touches nothing else." + COW_TIE,
+        level_note="Trusted: Lean kernel (+propext, Classical.choice, Quot.sound), primitive semantics of seq_cst atomics / "
+                   "std::mutex as interleaved cells, std::shared_ptr's control block, shim + scheduler + tap + payload + driver "
+                   "glue. Sequentially consistent interleavings only. " + TRY_LOCK_NOTE + ".",
+        trusted_base=COW_TRUST, assumptions=COW_ASSUME,
+        partial=["try_lock / try_lock_for / try_lock_until: not exercised — they cannot be instantiated (see level_note)"],
+    )
+
+
+PARTS = {
+    "C14": dict(
+        lean_files=["ConcVerif/Props/C14_cow.lean"], components=["cow_strict"],
+        trusted_base=COW_TRUST, assumptions=COW_ASSUME,
+        partial=["cow_guarded: 'a writer completes once the readers inside an acquisition have left' is proved as safety facts "
+                 "(lock() enabled iff the writer mutex is free; inner mutex never contended; the wait loops are the LR model's, "
+                 "on a reachable LR state, so the C14_lr facts apply; only threads inside lock_shared / the read phase of lock() "
+                 "are registered — a kept snapshot never delays a writer); the fair-scheduler termination step is not mechanised"]),
+    "C20": dict(
+        lean_files=["ConcVerif/Props/C20_cow.lean"], components=["cow"],
+        trusted_base=COW_TRUST, assumptions=COW_ASSUME, partial=[]),
+}
